@@ -99,6 +99,13 @@ class Folder:
         self._cache[name] = val
         return val
 
+    def _has_global(self, name: str) -> bool:
+        try:
+            self.mod.global_assign(name)
+            return True
+        except AnalysisError:
+            return self.mod.has_class(name)
+
     def _global(self, name: str) -> Any:
         if self.mod.has_class(name):
             return self.enum_table(name)
@@ -179,6 +186,8 @@ class Folder:
                 return env[n.id]
             if n.id in ('True', 'False', 'None'):
                 return {'True': True, 'False': False, 'None': None}[n.id]
+            if n.id in ('len', 'str', 'int', 'ord', 'chr', 'abs', 'min', 'max', 'repr', 'bool', 'float') and not self._has_global(n.id):
+                return {'len': len, 'str': str, 'int': int, 'ord': ord, 'chr': chr, 'abs': abs, 'min': min, 'max': max, 'repr': repr, 'bool': bool, 'float': float}[n.id]   # e.g. sorted(x, key=len)
             return self.global_(n.id)
         if isinstance(n, (ast.Tuple, ast.List, ast.Set)):
             out: List[Any] = []
